@@ -120,14 +120,81 @@ def run_case(ctx, mod, objs, case):
                 out["obj"] = repr(obj)[:1500]
                 out["back"] = repr(back)[:1500]
         elif op == "writers":
-            res = {}
+            # C08: both writers and the tree serializer give the same infoset (indentation aside)
+            from lxml import etree
+            from xsdata.formats.dataclass.serializers import TreeSerializer
+            res, err = {}, {}
+            cfg = dict(case.get("config") or {})
+            cfg.pop("indent", None)
             for w in ("native", "lxml"):
-                ser = XmlSerializer(context=ctx, config=make_config(case.get("config")), writer=WRITERS[w])
-                res[w] = ser.render(obj, ns_map=ns_map_of(case.get("ns_map")))
-            a, b = infoset(res["native"].encode()), infoset(res["lxml"].encode())
-            out["equal"] = a == b
-            if a != b:
-                out["native"], out["lxml"] = res["native"], res["lxml"]
+                try:
+                    ser = XmlSerializer(context=ctx, config=make_config(cfg), writer=WRITERS[w])
+                    res[w] = infoset(ser.render(obj, ns_map=ns_map_of(case.get("ns_map"))).encode())
+                except Exception as e:  # noqa
+                    err[w] = type(e).__name__ + ": " + str(e)[:150]
+            try:
+                tree = TreeSerializer(context=ctx, config=make_config(cfg)).render(obj, ns_map=ns_map_of(case.get("ns_map")))
+                res["tree"] = infoset(etree.tostring(tree))
+            except Exception as e:  # noqa
+                err["tree"] = type(e).__name__ + ": " + str(e)[:150]
+            out["errors"] = err
+            vals = list(res.values())
+            out["equal"] = not err and all(v == vals[0] for v in vals)
+            if not out["equal"]:
+                out["infosets"] = {k: json.dumps(v)[:1500] for k, v in res.items()}
+        elif op == "handlers":
+            # C08: both handlers, every source kind, same object (or the same exception type)
+            import xml.etree.ElementTree as ET
+            from lxml import etree
+            xml = case.get("doc") or XmlSerializer(context=ctx).render(obj)
+            data = xml.encode()
+            tmpd = tempfile.mkdtemp(prefix="c08-")
+            path = os.path.join(tmpd, "doc.xml")
+            with open(path, "wb") as f:
+                f.write(data)
+            import pathlib
+            results = {}
+            try:
+                for hname, h in HANDLERS.items():
+                    def P():
+                        return XmlParser(context=ctx, handler=h)
+                    sources = {
+                        "bytes": lambda: P().from_bytes(data, type(obj)),
+                        "str": lambda: P().from_string(xml, type(obj)),
+                        "path": lambda: P().from_path(pathlib.Path(path), type(obj)),
+                        "strpath": lambda: P().parse(path, type(obj)),
+                        "fileobj": lambda: P().parse(io.BytesIO(data), type(obj)),
+                        "lxml_tree": lambda: P().parse(etree.parse(io.BytesIO(data)), type(obj)),
+                        "lxml_element": lambda: P().parse(etree.fromstring(data), type(obj)),
+                    }
+                    if hname == "native":
+                        sources["et_tree"] = lambda: P().parse(ET.parse(io.BytesIO(data)), type(obj))
+                        sources["et_element"] = lambda: P().parse(ET.fromstring(data), type(obj))
+                        del sources["lxml_tree"], sources["lxml_element"]
+                    for sname, fn in sources.items():
+                        try:
+                            results[hname + "/" + sname] = ("ok", fn())
+                        except Exception as e:  # noqa
+                            results[hname + "/" + sname] = ("exc", type(e).__name__ + ": " + str(e)[:120])
+            finally:
+                import shutil
+                shutil.rmtree(tmpd, ignore_errors=True)
+            ref_k = "lxml/bytes"
+            ref = results[ref_k]
+            diffs = {}
+            for k, v in results.items():
+                if v[0] != ref[0]:
+                    diffs[k] = f"{v[0]} vs {ref[0]}: {v[1] if v[0] == 'exc' else ''}{ref[1] if ref[0] == 'exc' else ''}"[:300]
+                elif v[0] == "ok":
+                    d = eq(ref[1], v[1])
+                    if d is not None:
+                        diffs[k] = "differs at " + d
+                elif v[1].split(":")[0] != ref[1].split(":")[0]:
+                    diffs[k] = f"{v[1]} vs {ref[1]}"
+            out["equal"] = not diffs
+            out["diffs"] = diffs
+            if diffs:
+                out["xml"] = xml[:3000]
         elif op == "rewrite":
             import random
             import xmlrewrite as X
